@@ -314,26 +314,33 @@ func slurpSafe(p string) bool {
 	if err != nil {
 		return false
 	}
+	if len(q.Imports) > 0 || q.Meta != nil {
+		return false
+	}
+	return rightEdgeClosed(q)
+}
+
+// rightEdgeClosed: nothing on the right edge of the syntax tree (the operand chain that
+// the appended `| slurp(..)` would continue) opens a scope that reaches to the end of the
+// program: no function definition, variable binding or label.
+func rightEdgeClosed(q *gojq.Query) bool {
 	for q != nil {
-		if len(q.FuncDefs) > 0 || len(q.Imports) > 0 || q.Meta != nil {
+		if len(q.FuncDefs) > 0 {
 			return false
 		}
-		stage := q
-		if q.Op == gojq.OpPipe {
-			stage = q.Left
-		}
-		if stage != nil && stage.Term != nil {
-			if stage.Term.Type == gojq.TermTypeLabel {
+		if q.Term != nil {
+			if q.Term.Type == gojq.TermTypeLabel {
 				return false
 			}
-			for _, sf := range stage.Term.SuffixList {
+			for _, sf := range q.Term.SuffixList {
 				if sf.Bind != nil {
 					return false
 				}
 			}
+			return true
 		}
-		if q.Op != gojq.OpPipe {
-			break
+		if q.Right == nil {
+			return true
 		}
 		q = q.Right
 	}
